@@ -141,10 +141,13 @@ func TestVerifC18CrashStartRestartBadIAT(t *testing.T) { vf18CrashStartTest(t, v
 
 func vf18CrashStartTest(t *testing.T, kind vf18CrashKind) {
 	e := ev.For("C18")
-	e.Rule("crash-start: for each start kind (first start, restart, restart with iat-mode override, restart with explicit credentials, first start with explicit credentials, restart with an invalid iat-mode) a pre-history of 1-3 completed starts (plain / override / explicit) is run in-process, then the helper (re-executed test binary) performs the start under strace; crash states = pre-start directory + every prefix of the recorded calls on the state directory + torn prefixes of every write (all lengths <= 512 bytes, boundaries and a spread above; thorough: all lengths); on every crash state a plain start (and a second one) runs in-process; non-trivial = crash state whose directory content differs from both the pre-start and the post-start directory; fingerprint = (kind, pre-history, call index, torn length)")
+	e.Rule("crash-start: for each start kind (first start, restart, restart with iat-mode override, restart with explicit credentials, first start with explicit credentials, restart with an invalid iat-mode) a pre-history of 1-3 completed starts (plain / override / explicit) is run in-process, then the helper (re-executed test binary) performs the start under strace; crash states = pre-start directory + every prefix of the recorded calls on the state directory + torn prefixes of every write (all lengths <= 512 bytes, boundaries and a spread above; thorough: all lengths); on every crash state a plain recovery start runs in-process and the history continues, with the crash residue (e.g. *.tmp) carried along: plain; or (fresh copy of the crash state) explicit start with the recovered identity, then plain; or iat-mode override, then plain - all three after every call boundary, one in rotation on torn states - under the identity model of the history unit; non-trivial = crash state whose directory content differs from both the pre-start and the post-start directory; fingerprint = (kind, pre-history, call index, torn length)")
 	e.Assume("crash model: the process is killed; completed system calls persist in program order; a single write may be torn at any byte; fsync is a no-op (no power loss, no reordering of completed calls)")
 	e.Assume("strace -f -y -xx records every call on the state directory; the replayer is validated on every trace by comparing the replayed final state with the directory the helper left behind")
 	e.Floor("crash-start-torn-write/crash-start", 0.5)
+	for _, c := range []string{"plain-plain", "explicit-same-identity-then-plain", "iat-override-then-plain"} {
+		e.Floor("crash-start-cont-"+c+"/crash-start", 0.10)
+	}
 	for _, k := range vf18CrashKinds[:5] {
 		e.Floor("crash-start-"+k.name+"/crash-start", 0.05)
 	}
